@@ -13,6 +13,7 @@
                              (C10_sep_replaced_rejected below, Part B). *)
 From Coq Require Import List Arith NArith.
 From Verif Require Import ChecksumModel ChecksumSpec ChecksumTheorems ExprTreeModel ExprTreeTotal ExprTreeRt ExprTreeGrammar.
+From Verif Require Import TypeCheck MsTextModel MsTextProofs.
 Import ListNotations.
 Local Open Scope N_scope.
 
@@ -121,6 +122,56 @@ Theorem C10_sep_replaced_rejected : forall p cs x nodes,
   rejected_t (from_str_inner (p ++ x :: cs)).
 Proof. exact sep_replaced_rejected_lemma. Qed.
 Print Assumptions C10_sep_replaced_rejected.
+
+(* ---------------------------------------------------------------------------------------------
+   Part C (miniscript text layer): model Ms/MsTextModel.v of `Display for Terminal` ([to_tree]; the
+   text is [print (to_tree m)]) and of `FromTree for Miniscript` ([from_tree], the loop over the
+   right-to-left post order with its stack), tied to the real printer and parser on every run by
+   Tables/MsTextCasesCheck.v.  Keys and hashes are opaque atoms: the theorems hold for every
+   printer/parser pair with `parse (print x) = Some x`; `Miniscript::from_ast` is an arbitrary
+   boolean [chk] (instantiated with the type check for the tie), so the statements are about the
+   layer below the type system and hold for every such check.
+
+   ms_rt, printing side: every AST whose thresholds and lock times are in the ranges the parser
+   enforces and whose composite nodes pass from_ast ([ms_text_ok]) is parsed back from its printed
+   tree: sugar (pk, pkh, t: l: u:, and_n), wrapper prefixes and argument lists are unambiguous. *)
+Theorem C10_ms_print_parse :
+  forall (print_key : key -> tbytes) (parse_key : tbytes -> option key)
+         (print_hash : hkind -> tbytes -> tbytes) (parse_hash : hkind -> tbytes -> option tbytes)
+         (chk : ms -> bool),
+  (forall k, parse_key (print_key k) = Some k) ->
+  (forall h b, parse_hash h (print_hash h b) = Some b) ->
+  forall m, ms_text_ok chk m = true ->
+  from_tree parse_key parse_hash chk (to_tree print_key print_hash m) = Ok m.
+Proof. exact print_parse. Qed.
+Print Assumptions C10_ms_print_parse.
+
+(* non-vacuity: an instance of the parameters that satisfies the hypotheses (keys printed in
+   decimal, hashes verbatim, from_ast = the type check), and a typed miniscript with sugar,
+   wrappers, a threshold, a multi and both lock kinds:
+   "and_v(v:pk(1),and_v(v:older(9),thresh(2,pkh(2),s:pk(3),a:and_n(multi(1,4,5),tv:after(7)),al:pk(6))))" *)
+Definition ex_chk (m : ms) : bool := match type_of m with ROk _ => true | RErr _ => false end.
+Definition ex_parse_key (s : tbytes) : option key := dval s 0.
+Definition ex_ms : ms :=
+  MAndV (MVerify (MCheck (MPkK 1)))
+   (MAndV (MVerify (MOlder 9))
+        (MThresh 2 [MCheck (MPkH 2); MSwap (MCheck (MPkK 3));
+                    MAlt (MAndOr (MMulti 1 [4; 5]) (MAndV (MVerify (MAfter 7)) MTrue) MFalse);
+                    MAlt (MOrI MFalse (MCheck (MPkK 6)))])).
+Example C10_ms_nonvacuous :
+  (forall k, ex_parse_key (dec k) = Some k) /\
+  (forall (h : hkind) (b : tbytes), (fun _ s => Some s) h ((fun _ s => s) h b) = Some b) /\
+  ms_text_ok ex_chk ex_ms = true /\
+  print (to_tree dec (fun _ s => s) ex_ms) =
+    [97;110;100;95;118;40;118;58;112;107;40;49;41;44;97;110;100;95;118;40;118;58;111;108;100;101;114;40;57;41;
+     44;116;104;114;101;115;104;40;50;44;112;107;104;40;50;41;44;115;58;112;107;40;51;41;44;97;58;97;110;100;
+     95;110;40;109;117;108;116;105;40;49;44;52;44;53;41;44;116;118;58;97;102;116;101;114;40;55;41;41;44;97;
+     108;58;112;107;40;54;41;41;41;41] /\
+  from_tree ex_parse_key (fun _ s => Some s) ex_chk (to_tree dec (fun _ s => s) ex_ms) = Ok ex_ms.
+Proof.
+  split; [exact dval_dec|]. split; [reflexivity|].
+  split; [vm_compute; reflexivity|]. split; vm_compute; reflexivity.
+Qed.
 
 (* ---- non-vacuity of the tree theorems: "a(b,c{d})" *)
 Definition ex_tree : etree :=
